@@ -49,7 +49,25 @@ impl R {
     }
 }
 
-pub const EDGES: [Sc; 10] = [Sc::I(0), Sc::I(1), Sc::I(-1), Sc::P2(64, 0), Sc::P2(64, 1), Sc::P2(64, -1), Sc::P2(128, 0), Sc::Half, Sc::I(2), Sc::P2(200, 5)];
+pub const EDGES: [Sc; 16] = [
+    Sc::I(0),
+    Sc::I(1),
+    Sc::I(-1),
+    Sc::P2(64, 0),
+    Sc::P2(64, 1),
+    Sc::P2(64, -1),
+    Sc::P2(128, 0),
+    Sc::Half,
+    Sc::I(2),
+    Sc::P2(200, 5),
+    // limb / byte boundaries of the canonical encoding
+    Sc::P2(192, -1),
+    Sc::P2(248, 0),
+    Sc::P2(248, -1),
+    Sc::P2(252, 3),
+    Sc::P2(32, 0),
+    Sc::I(255),
+];
 
 pub fn rand_sc(r: &mut R, edge_only: bool, nchal: usize) -> Sc {
     let base = if edge_only || r.chance(1, 3) {
@@ -332,6 +350,11 @@ pub fn corner_cfgs(max_gates: usize) -> Vec<(String, GenCfg)> {
     v.push(("many-commits".into(), GenCfg { m: 8, q: 6, ..s(2, 0) }));
     v.push(("no-commit-gates".into(), GenCfg { m: 0, ..s(3, 1) }));
     v.push(("deep-expr".into(), GenCfg { depth: 5, max_terms: 8, ..s(3, 2) }));
+    v.push(("four-closures".into(), GenCfg { closures: 4, user_data: true, ..s(2, 6) }));
+    v.push(("five-closures-pending-userdata".into(), GenCfg { closures: 5, user_data: true, pending1: true, pending2: true, ..s(3, 5) }));
+    v.push(("twelve-commitments".into(), GenCfg { m: 12, q: 8, late_commit: true, ..s(3, 1) }));
+    v.push(("sixteen-commitments-no-gates".into(), GenCfg { m: 16, q: 10, ..s(0, 0) }));
+    v.push(("many-rows".into(), GenCfg { q: 40, max_terms: 10, ..s(4, 4) }));
     v
 }
 
